@@ -35,6 +35,10 @@ type c03Event struct {
 	// SameFile: the fresh context of this parse uses the file set, file and reader objects
 	// of the previous parse of the main input
 	SameFile bool `json:"same_file,omitempty"`
+	// Again: the caller parses a second time with the SAME context and grammar object (a
+	// syntax check followed by the parse proper); the second answer must equal the first
+	Again bool `json:"again,omitempty"`
+	ctx   *parsley.Context // prepared ahead of the parse (c03Case.PrepareAt)
 }
 
 type c03Case struct {
@@ -43,6 +47,13 @@ type c03Case struct {
 	History []c03Event `json:"history"`
 	Prefix  int        `json:"prefix,omitempty"` // bytes of another file placed before the input in the file set
 	Long    bool       `json:"long,omitempty"`   // long-input workload: larger call / render budgets
+	// ViaParse: every parse of the history goes through parsley.Parse (the public entry
+	// point) instead of calling the root parser directly
+	ViaParse bool `json:"via_parse,omitempty"`
+	// PrepareAt k > 0: just before event k-1 the caller creates the contexts of ALL remaining
+	// events (a batch of inputs prepared first, parsed later), so several contexts are alive
+	// while earlier ones are still being used
+	PrepareAt int `json:"prepare_at,omitempty"`
 }
 
 type c03Prop struct{}
@@ -248,12 +259,12 @@ func (*c03Prop) Gen(r *Rand, pl *Plan) Case {
 	reps := r.Range(3, 4)
 	var evs []c03Event
 	for i := 0; i < reps; i++ {
-		evs = append(evs, c03Event{Kind: "plain", Order: randPerm(r, n), MapSeed: r.U64(), Identity: r.Chance(1, 6), SameFile: r.Chance(1, 3)})
+		evs = append(evs, c03Event{Kind: "plain", Order: randPerm(r, n), MapSeed: r.U64(), Identity: r.Chance(1, 6), SameFile: r.Chance(1, 3), Again: r.Chance(1, 5)})
 		ch := r.Intn(4) * r.Intn(4)
 		if r.Chance(1, 8) {
 			ch = r.Range(40, 600) // large index gaps: parser indexes far from the small values a fresh process hands out
 		}
-		evs = append(evs, c03Event{Kind: "memo", Order: randPerm(r, n), Churn: ch, MapSeed: r.U64(), Identity: r.Chance(1, 6), Reuse: r.Chance(1, 3), SameFile: r.Chance(1, 3)})
+		evs = append(evs, c03Event{Kind: "memo", Order: randPerm(r, n), Churn: ch, MapSeed: r.U64(), Identity: r.Chance(1, 6), Reuse: r.Chance(1, 3), SameFile: r.Chance(1, 3), Again: r.Chance(1, 4)})
 		if r.Chance(1, 4) {
 			for k := r.Range(1, 3); k > 0; k-- {
 				evs = append(evs, c03Event{Kind: "warm", Input: c.G.genInput(r, alphabet, 12), MapSeed: r.U64()})
@@ -270,6 +281,10 @@ func (*c03Prop) Gen(r *Rand, pl *Plan) Case {
 		evs[i], evs[j] = evs[j], evs[i]
 	}
 	c.History = evs
+	c.ViaParse = r.Chance(1, 4)
+	if r.Chance(1, 5) {
+		c.PrepareAt = 1 + r.Intn(len(evs))
+	}
 	return c
 }
 
@@ -379,6 +394,7 @@ type c03Obs struct {
 	res, err, ctxErr string
 	calls            int
 	once             string
+	again            string
 	hits             int
 	discard          string
 }
@@ -447,6 +463,7 @@ func c03ParseOnce(g *Grammar, input string, prefix int, memo bool, e *c03Event, 
 }
 
 var c03Ctx *ctxSource // set by c03Judge for the duration of one case
+var c03ViaParse bool
 
 func c03ParseOnceOpt(g *Grammar, input string, prefix int, memo, refMemo bool, e *c03Event, shim bool, long bool, keep **c03Built) (o c03Obs) {
 	defer func() {
@@ -477,12 +494,25 @@ func c03ParseOnceOpt(g *Grammar, input string, prefix int, memo, refMemo bool, e
 		}
 	}
 	var ctx *parsley.Context
-	if c03Ctx != nil && e.Kind != "other" {
+	if e.ctx != nil {
+		ctx, e.ctx = e.ctx, nil
+	} else if c03Ctx != nil && e.Kind != "other" {
 		ctx = c03Ctx.get(input, prefix, e.SameFile)
 	} else {
 		ctx = newCtx(input, prefix)
 	}
-	n, _, err := b.Root.Parse(ctx, data.EmptyIntMap, ctx.Reader().Pos(0))
+	parse := func() (parsley.Node, string) {
+		if c03ViaParse && e.Kind != "other" {
+			n, err := parsley.Parse(ctx, b.Root)
+			if err != nil {
+				return n, err.Error()
+			}
+			return n, "-"
+		}
+		n, _, err := b.Root.Parse(ctx, data.EmptyIntMap, ctx.Reader().Pos(0))
+		return n, renderErr(err)
+	}
+	n, errText := parse()
 	var over bool
 	budget := 1 << 15
 	if long {
@@ -493,7 +523,7 @@ func c03ParseOnceOpt(g *Grammar, input string, prefix int, memo, refMemo bool, e
 		o.discard = "render-budget"
 		return
 	}
-	o.err = renderErr(err)
+	o.err = errText
 	if ce := ctx.Error(); ce != nil {
 		o.ctxErr = fmt.Sprint(ce.Pos())
 	} else {
@@ -502,6 +532,27 @@ func c03ParseOnceOpt(g *Grammar, input string, prefix int, memo, refMemo bool, e
 	o.calls = ctx.CallCount()
 	o.once = st.onceViolation
 	o.hits = st.memoOuter - st.memoInner
+	if e.Again && !hasOp(g, "rtrim") {
+		// (not with RightTrim in the grammar: the open finding moves cached nodes in place)
+		first := o.visible()
+		*st = *newGuard(long)
+		n2, err2 := parse()
+		res2, over2 := renderNode(n2, budget)
+		if !over2 {
+			ce2 := "-"
+			if ce := ctx.Error(); ce != nil {
+				ce2 = fmt.Sprint(ce.Pos())
+			}
+			second := "results=" + res2 + " err=" + err2 + " ctxerr@" + ce2
+			if second != first {
+				o.again = fmt.Sprintf("a second parse with the same context and grammar object answered differently:\n  first:  %s\n  second: %s", clip(first), clip(second))
+			} else if st.onceViolation != "" {
+				o.again = "in the second parse with the same context: " + st.onceViolation
+			} else if memo && ctx.CallCount()-o.calls > o.calls {
+				o.again = fmt.Sprintf("the second parse with the same context made %d calls, the first %d", ctx.CallCount()-o.calls, o.calls)
+			}
+		}
+	}
 	return o
 }
 
@@ -524,9 +575,24 @@ func c03Judge(c *c03Case, shim bool, v *Verdict) (class, detail string) {
 	var plain, memo *c03Obs
 	var lastMemo *c03Built
 	c03Ctx = &ctxSource{}
-	defer func() { c03Ctx = nil }()
+	c03ViaParse = c.ViaParse
+	defer func() { c03Ctx, c03ViaParse = nil, false }()
+	for i := range c.History {
+		c.History[i].ctx = nil
+	}
 	for i := range c.History {
 		e := &c.History[i]
+		if c.PrepareAt > 0 && i == c.PrepareAt-1 {
+			for j := i; j < len(c.History); j++ {
+				switch pe := &c.History[j]; pe.Kind {
+				case "plain", "memo":
+					pe.ctx = c03Ctx.get(c.Input, c.Prefix, pe.SameFile)
+				case "warm":
+					pe.ctx = c03Ctx.get(pe.Input, c.Prefix, false)
+				}
+				v.Probes["contexts_prepared_ahead"]++
+			}
+		}
 		switch e.Kind {
 		case "other":
 			o := c03ParseOnce(e.G, e.Input, 0, true, e, shim, false, nil)
@@ -538,6 +604,9 @@ func c03Judge(c *c03Case, shim bool, v *Verdict) (class, detail string) {
 				return "discard", o.discard
 			}
 			v.Probes["plain_parses"]++
+			if o.again != "" {
+				return "determinism:same-context", "un-memoised build: " + o.again
+			}
 			if plain == nil {
 				plain = &o
 			} else if o.visible() != plain.visible() || o.calls != plain.calls {
@@ -563,6 +632,12 @@ func c03Judge(c *c03Case, shim bool, v *Verdict) (class, detail string) {
 			v.Probes["cache_hits"] += int64(o.hits)
 			if o.once != "" {
 				return "once", o.once
+			}
+			if o.again != "" {
+				return "determinism:same-context", "memoised build: " + o.again
+			}
+			if e.Again {
+				v.Probes["second_parses_on_the_same_context"]++
 			}
 			if memo == nil {
 				memo = &o
@@ -669,10 +744,15 @@ func (*c03Prop) Shrink(cc Case) []Case {
 		k.Prefix = 0
 		out = append(out, k)
 	}
+	if c.ViaParse || c.PrepareAt > 0 {
+		k := clone()
+		k.ViaParse, k.PrepareAt = false, 0
+		out = append(out, k)
+	}
 	for i, e := range c.History {
-		if e.Churn > 0 || !e.Identity || e.Order != nil {
+		if e.Churn > 0 || !e.Identity || e.Order != nil || e.Again {
 			k := clone()
-			k.History[i].Churn, k.History[i].Identity, k.History[i].Order = 0, true, nil
+			k.History[i].Churn, k.History[i].Identity, k.History[i].Order, k.History[i].Again = 0, true, nil, false
 			out = append(out, k)
 		}
 	}
